@@ -57,6 +57,15 @@ def worlds(tier: str, stats: Dict[str, Any], subset: Optional[str] = None) -> It
                 # the same trace as rank 1 of a two-rank job whose rank 0 has a different event layout
                 stats["transitions"] += 1
                 yield dict(program=[list(a) for a in p], profile=prof, steps=False, flag=i % 2, as_rank1=True)
+            if j == 2 and (i % 3 == 2):
+                # a second host process whose thread has the same tid as the main thread, busy at the same time
+                stats["transitions"] += 1
+                yield dict(program=[list(a) for a in p], profile=prof, steps=False, flag=i % 2, second_process=True)
+            if j == 1 and (i % 3 == 2) and any(a[0] == "launch" and a[1] == 9 for a in p):
+                # names are decoded (unshortened) before the analysis; the communication kernel has a templated name
+                stats["transitions"] += 1
+                yield dict(program=[list(a) for a in p], profile=dict(prof, knames={"9": "void ncclKernel_AllReduce_RING_LL_Sum_float<false>(ncclDevComm*, int)"}),
+                           steps=False, flag=i % 2, prior_decode=True)
             if j == 0 and (i % 2 == 0):
                 # a second host thread holding a single leaf operator (a disconnected component of the graph)
                 for leaf in (200, 1):
@@ -82,6 +91,12 @@ def build(world) -> List[Dict[str, Any]]:
         from mc import kineto
 
         evs.append(kineto.cpu_op("aten::other_thread_leaf", gpusim.E0 + 1, world["second_thread"], tid=101, ext=999))
+    if world.get("second_process"):
+        from mc import kineto
+
+        t0 = min(e["ts"] for e in evs if e["pid"] != 0 and e["name"] != "aten::root")
+        evs.append(kineto.cpu_op("aten::other_process_a", t0, 6, tid=kineto.MAIN_TID, pid=200, ext=997))
+        evs.append(kineto.cpu_op("aten::other_process_b", t0 + 7, 30, tid=kineto.MAIN_TID, pid=200, ext=998))
     if world.get("file_order") == "device-reversed":
         host = [e for e in evs if e["pid"] != 0]
         dev = [e for e in evs if e["pid"] == 0]
@@ -114,6 +129,8 @@ def load(world):
         m = min(r["ts"] for r in refmodel.parse_rows(evs0) + refmodel.parse_rows(evs))
         return ta, 1, evs, m
     ta, _ = htaenv.load_world({0: evs})
+    if world.get("prior_decode"):
+        ta.t.decode_symbol_ids(use_shorten_name=False)   # an earlier, legitimate call of the session
     return ta, 0, evs, min(r["ts"] for r in refmodel.parse_rows(evs))
 
 
